@@ -258,8 +258,10 @@ def _effects(stmts, handle=None):
                 _calls_in(a, pre, handle)
             out.extend(("call", "", n) if k == "call" else (k, n) for k, n in pre)
             var = st.items[0].optional_vars.id if isinstance(st.items[0].optional_vars, ast.Name) else None
-            if "w" in mode or "a" in mode or "+" in mode or "x" in mode:
-                out.append(("openW", _dotted(call.args[0]) if call.args else "?"))
+            if "w" in mode or "x" in mode:
+                out.append(("openW", _dotted(call.args[0]) if call.args else "?"))       # the model's write-open truncates: only these modes do
+            elif "a" in mode or "+" in mode:
+                out.append(("unknown", "open mode %s (writes without truncating)" % mode))
             else:
                 out.append(("openR", _dotted(call.args[0]) if call.args else "?"))
             out.extend(_effects(st.body, var))
